@@ -172,18 +172,30 @@ def run(ctx, res):
             else:
                 raise ValueError(op)
         return k
-    if len(anc) == 1 and len(pair) == 1:
-        a_, p_ = list(anc)[0], list(pair)[0]
+    def site_norm(forms, k):
+        """Slashes left on a closer's name with k >= 1 leading slashes at a comparison site.  `strip_prefix('/').unwrap_or(name)`
+        shows up as two forms: the stripped one, and the plain name on the path where nothing could be stripped (k = 0 only)."""
+        strip = [f for f in forms if "strip_prefix('/')" in f or "trim_start_matches('/')" in f]
+        plain = [f for f in forms if f not in strip]
+        if len(strip) != 1 or any(x != "" for x in plain):
+            raise ValueError("forms %s" % sorted(forms))
+        return slashes(strip[0], k)
+    if anc and pair and len(anc) <= 2 and len(pair) <= 2:
+        a_, p_ = sorted(anc)[-1], sorted(pair)[-1]
         try:
-            diff = [k for k in (1, 2, 3) if slashes(a_, k) != slashes(p_, k)]
+            diff = [k for k in (1, 2, 3) if site_norm(anc, k) != site_norm(pair, k)]
+            many = [k for k in (1, 2, 3) if site_norm(anc, k) != k - 1 or site_norm(pair, k) != k - 1]
         except ValueError as e:
-            diff = None
+            diff = many = None
             res.cannot("C10.R6", fn, "closer-normalisation", "name operation `%s` is not modelled" % e, loc)
-        if diff == []:
-            res.holds("C10.R6", fn, "closer-normalisation", "ancestor test `name%s` and pairing `name%s` agree for 1-3 leading slashes" % (a_, p_))
+        if diff == [] and many == []:
+            res.holds("C10.R6", fn, "closer-normalisation", "ancestor test `name%s` and pairing `name%s` both drop exactly one leading slash" % (a_, p_))
         elif diff:
             res.add(Finding("C10.R6", fn, "closer-normalisation", "a closing tag with %d leading slashes is normalised as `name%s` where it is recognised as the closer of an open "
                             "element but as `name%s` where it is paired with its opener: the two disagree, every level unwinds and the rest of the document is dropped" % (diff[0], a_, p_), loc=loc))
+        elif many:
+            res.add(Finding("C10.R6", fn, "closer-normalisation", "a closing tag is `/` + name: with %d leading slashes the closer's name is reduced to `name%s` (all of them are dropped): "
+                            "`<//name>` closes the open element `name` instead of being a stray tag" % (many[0], a_), loc=loc))
     else:
         res.cannot("C10.R6", fn, "closer-normalisation", "ancestor test / pairing comparison not identified (%d / %d forms)" % (len(anc), len(pair)), loc)
     for cond in sorted(r5_bad):
@@ -204,8 +216,24 @@ def run(ctx, res):
     else:
         res.add(Finding("C10.R1", fshort(pb), "seed", "parse() does not start the traversal at token 0 / does not return the filled list", loc=T.loc(pb["tree"])))
     # R4: ancestors are matched by their full name against the closer's name without its prefix
-    preds = {k for o in outs for k in o["decisions"] if k.startswith("any(parent_elements.iter()")}
-    want = "any(parent_elements.iter(), {eq($e.name, parse(tokens.get(cursor).some).some.name.trim_start_matches('/'))})"
+    want = "any(parent_elements.iter(), {eq($e.name, parse(tokens.get(cursor).some).some.name.strip_prefix('/').some)})"
+    # the lookup on the path where nothing could be stripped although the name starts with '/' does not exist
+    preds = {k for o in outs for k in o["decisions"] if k.startswith("any(parent_elements.iter()")
+             and not any(re.match(r"^is_some\((.+)\.strip_prefix\('/'\)\)$", k2) and v2 is False
+                         and o["decisions"].get(re.match(r"^is_some\((.+)\.strip_prefix\('/'\)\)$", k2).group(1) + ".starts_with('/')") is True
+                         for k2, v2 in o["decisions"].items())}
+    def _canon_lookup(k):
+        # any alternative spelling that removes exactly one leading slash of the closer's name is the same lookup
+        m_ = re.match(r"^(any\(parent_elements\.iter\(\), \{eq\(\$e\.name, parse\(.+?\)\.some\.name)((?:\.[a-z_]+\([^()]*\)|\.some)*)(\)\}\))$", k)
+        if not m_:
+            return k
+        try:
+            if all(slashes(m_.group(2), kk) == kk - 1 for kk in (1, 2, 3)):
+                return m_.group(1) + ".strip_prefix('/').some" + m_.group(3)
+        except ValueError:
+            pass
+        return k
+    preds = {_canon_lookup(k) for k in preds}
     if preds == {want}:
         res.holds("C10.R4", fn, "ancestor-lookup", "any(|p| p.name == closer.name without its '/')")
     else:
@@ -226,7 +254,7 @@ def run(ctx, res):
                 res.add(Finding("C10.R2", fshort(b_), site, "tag name used through `%s` (not an exact comparison)" % detail, loc=T.loc(n)))
         else:
             res.holds("C10.R2", fshort(b_), site)
-    res.floor("C10.R2", "tag-name uses in the parser module", cnt, 5)
+    res.floor("C10.R2", "tag-name uses in the parser module", cnt, 3)
 
 
 def _short(k):
